@@ -85,7 +85,55 @@ CATALOGUE = _catalogue()
 def shards(tier):
     out = [("single", s) for s in seq_shards(SIGMA, 4 if tier == "quick" else 5)]
     out += [("lists", i) for i in range(len(CATALOGUE))]
+    out += [("history", 0)]
     return out
+
+
+def check_history(acc):
+    """(a) long-lived copy-mode MergeNameParts / MergeCoAuthors / SplitNameParts / SeparateCoAuthors instances over
+    sequences of libraries with failing calls in between; (b) name fields that share one list object: each field is
+    merged / split from its own view of the value."""
+    from bibtexparser.library import Library
+    from bibtexparser.model import Field
+
+    from .. import hostile, leak
+
+    def split_lib(names):
+        return lambda: bibtexparser.parse_string("@a{k, author = {%s}, editor = {%s}}" % (" and ".join(names), names[0]), append_middleware=[SeparateCoAuthors(), SplitNameParts()])
+
+    def str_lib(names):
+        return lambda: bibtexparser.parse_string("@a{k, author = {%s}, editor = {%s}}" % (" and ".join(names), names[0]))
+
+    groups = [CATALOGUE[i : i + 3] for i in range(0, 30, 3)]
+    P = hostile.libraries() + [str_lib(g) for g in groups[:3]]  # unsplit names make MergeNameParts raise
+    for style in ("last", "first"):
+        leak.run(lambda: MergeNameParts(style=style, allow_inplace_modification=False), [split_lib(g) for g in groups], acc, f"MergeNameParts({style})", poison=P, judge=leak.copy_judge)
+    leak.run(lambda: MergeCoAuthors(allow_inplace_modification=False), [lambda g=g: MergeNameParts().transform(split_lib(g)()) for g in groups], acc, "MergeCoAuthors", poison=P, judge=leak.copy_judge)
+    leak.run(lambda: SplitNameParts(allow_inplace_modification=False), [lambda g=g: bibtexparser.parse_string("@a{k, author = {%s}}" % " and ".join(g), append_middleware=[SeparateCoAuthors()]) for g in groups], acc, "SplitNameParts", poison=P, judge=leak.copy_judge)
+    # (b) one list object held by two fields (chapter.editor = book.author)
+    for inplace in (True, False):
+        for g in groups:
+            lib = split_lib(g)()
+            e = lib.entries[0]
+            shared = e.fields_dict["author"].value
+            e.set_field(Field("editor", shared))
+            e2 = Entry("b", "k2", [Field("author", shared), Field("translator", list(shared))])
+            lib.add(e2)
+            expect = [p.merge_last_name_first for p in shared]
+            case = {"shared_list": list(g), "inplace": inplace}
+            acc.trace()
+            acc.case(nontrivial_key=("shared", tuple(g), inplace))
+            try:
+                out = MergeNameParts(allow_inplace_modification=inplace).transform(lib)
+                got = [f.value for b in out.entries for f in b.fields]
+            except Exception as ex:
+                acc.exception(ex, case, "MergeNameParts on fields sharing one list")
+                continue
+            if any(v != expect for v in got):
+                acc.violation(
+                    {"oracle": "each_field_merged_from_its_own_value", "inplace": inplace},
+                    {"case": case, "observed": got, "expected": [expect] * len(got)},
+                )
 
 
 def in_domain(name):
@@ -204,6 +252,8 @@ def check_value(names, acc, do_stack=True, case=None, sep=" and "):
 
 def run_shard(shard, tier, acc):
     kind = shard[0]
+    if kind == "history":
+        return check_history(acc)
     if kind == "single":
         for toks in seq_iter(SIGMA, shard[1]):
             name = "".join(toks)
@@ -222,6 +272,8 @@ def run_shard(shard, tier, acc):
 
 
 def replay(case, acc):
+    if "names" not in case:
+        return check_history(acc)
     check_value(case["names"], acc, True, case, sep=case.get("sep", " and "))
 
 
